@@ -110,6 +110,20 @@ func (r *Run) SetBudget(sec int) {
 // record what was left out with Incomplete; the run then reports exhaustive:false.
 func (r *Run) OutOfTime() bool { return !r.deadline.IsZero() && time.Now().After(r.deadline) }
 
+// WayOutOfTime reports whether the run is past its internal deadline by half the budget (at least 300 s): the hard stop for parts that are exempt from
+// the ordinary deadline (cheap, specific parts that should always run) so that even they cannot make a check run
+// without bound on an overloaded machine. Callers record what was left out with Incomplete.
+func (r *Run) WayOutOfTime() bool {
+	if r.deadline.IsZero() {
+		return false
+	}
+	grace := r.deadline.Sub(r.start) / 2
+	if grace < 300*time.Second {
+		grace = 300 * time.Second
+	}
+	return time.Now().After(r.deadline.Add(grace))
+}
+
 func (r *Run) Incomplete(what string) {
 	r.mu.Lock()
 	defer r.mu.Unlock()
